@@ -150,6 +150,8 @@ func (router *Router) FindRoute(req *http.Request) (*routers.Route, map[string]s
 		if pathItem.Operations()[method] == nil { // GetOperation panics on a method it does not know
 			return nil, nil, &routers.RouteError{Reason: routers.ErrMethodNotAllowed.Error()}
 		}
+		// The request path spells a template literally (e.g. "/a/%7Bx%7D.json"): no template matches it.
+		return nil, nil, &routers.RouteError{Reason: routers.ErrPathNotFound.Error()}
 	}
 
 	if pathParams == nil {
